@@ -380,6 +380,8 @@ func main() {
 	if *scenario {
 		runScenario(d, dAddr, cfg, fail)
 		concurrentDelivery(d, dAddr, cfg, fail)
+		bigBatch(d, dAddr, cfg, fail)
+		failoverReports(d, dAddr, cfg, fail)
 	}
 }
 
@@ -741,5 +743,117 @@ func concurrentDelivery(d *scripted, dAddr string, cfg *pb.Config, fail func(cla
 	}
 	if !wait(func() bool { return info(s2) != nil && info(s3) != nil }) {
 		fail("dispatch_once_in_order", "batch-received-meanwhile-lost", "requests received while another batch was being executed were not executed afterwards", ops)
+	}
+}
+
+// bigBatch: two replies are queued before the executor drains the queue - start requests for seven shards, then kill
+// requests for the same seven replicas (fourteen requests in one drained batch, the requests of a shard far apart).
+// Requests for one shard are executed in the order received: every replica is started and then killed, nothing is left.
+func bigBatch(d *scripted, dAddr string, cfg *pb.Config, fail func(clause, sig, what string, ops interface{})) {
+	h := newHost()
+	defer h.stop()
+	report := func(reqs []*pb.NodeHostRequest) bool {
+		d.mu.Lock()
+		d.replies[h.Addr] = reqs
+		d.mu.Unlock()
+		nhi := h.NH.GetNodeHostInfo(dragonboat.DefaultNodeHostInfoOption)
+		nhi.LogInfo = nil
+		return h.dc.SendNodeHostInfo(ctx(), dAddr, *nhi, "api", false) == nil
+	}
+	const n = 7
+	creates, kills := []*pb.NodeHostRequest{}, []*pb.NodeHostRequest{}
+	ops := []J{}
+	for i := 0; i < n; i++ {
+		sid := uint64(9101 + i)
+		creates = append(creates, &pb.NodeHostRequest{Change: &pb.Request{Type: pb.Request_CREATE, ShardId: sid, Members: []uint64{1}}, ReplicaIdList: []uint64{1},
+			AddressList: []string{h.Addr}, InstantiateReplicaId: 1, RaftAddress: h.Addr, AppName: "kvtest", Config: cfg})
+		kills = append(kills, &pb.NodeHostRequest{Change: &pb.Request{Type: pb.Request_KILL, ShardId: sid, Members: []uint64{1}}, RaftAddress: h.Addr})
+	}
+	for i := 0; i < n; i++ {
+		ops = append(ops, J{"t": "create", "s": 9101 + i})
+	}
+	for i := 0; i < n; i++ {
+		ops = append(ops, J{"t": "kill", "s": 9101 + i})
+	}
+	if !report(creates) || !report(kills) {
+		run.Count("c18:inconclusive_big_batch")
+		return
+	}
+	h.dc.HandleMasterRequests(ctx())
+	run.Count("case:big_batch")
+	time.Sleep(100 * time.Millisecond)
+	for _, ci := range h.NH.GetNodeHostInfo(dragonboat.DefaultNodeHostInfoOption).ShardInfoList {
+		if ci.ShardID >= 9101 && ci.ShardID < 9101+n {
+			fail("dispatch_in_order", "same-shard-requests-reordered", fmt.Sprintf("one drained batch of %d requests (start requests for %d shards, then kill requests for the same replicas): replica 1 of shard %d is still running, its kill request was executed before its start request", 2*n, n, ci.ShardID), ops)
+			return
+		}
+	}
+	for i := 0; i < n; i++ {
+		if h.NH.HasNodeInfo(uint64(9101+i), 1) {
+			fail("dispatch_in_order", "same-shard-requests-reordered", fmt.Sprintf("after start-then-kill in one drained batch the data of shard %d is still on disk", 9101+i), ops)
+			return
+		}
+	}
+}
+
+// failoverReports: the agent's report cycle with several Drummer servers of which only one answers (the agent tries them in
+// a random order). Whatever server the report reaches, and after however many failed attempts, it lists the persisted
+// logs exactly when it announces them.
+func failoverReports(d *scripted, dAddr string, cfg *pb.Config, fail func(clause, sig, what string, ops interface{})) {
+	h := newHost()
+	defer h.stop()
+	const sid = 9201
+	d.mu.Lock()
+	d.replies[h.Addr] = []*pb.NodeHostRequest{{Change: &pb.Request{Type: pb.Request_CREATE, ShardId: sid, Members: []uint64{1}}, ReplicaIdList: []uint64{1},
+		AddressList: []string{h.Addr}, InstantiateReplicaId: 1, RaftAddress: h.Addr, AppName: "kvtest", Config: cfg}}
+	d.mu.Unlock()
+	nhi := h.NH.GetNodeHostInfo(dragonboat.DefaultNodeHostInfoOption)
+	if h.dc.SendNodeHostInfo(ctx(), dAddr, *nhi, "api", false) != nil {
+		run.Count("c18:inconclusive_failover")
+		return
+	}
+	h.dc.HandleMasterRequests(ctx())
+	for i := 0; i < 200 && !h.NH.HasNodeInfo(sid, 1); i++ {
+		time.Sleep(10 * time.Millisecond)
+	}
+	// the servers that fail answer every call with an error at once (an unreachable address would cost a connection
+	// timeout per attempt)
+	bl, _ := net.Listen("tcp", "127.0.0.1:0")
+	bad := grpc.NewServer()
+	pb.RegisterDrummerServer(bad, &pb.UnimplementedDrummerServer{})
+	go bad.Serve(bl)
+	defer bad.Stop()
+	dead := func() string { return bl.Addr().String() }
+	agent := client.VerifNewNodeHostClient(h.NH, []string{dead(), dead(), dAddr, dead()}, "api-"+h.Addr)
+	for round := 0; round < 16; round++ {
+		plog := round%2 == 0
+		d.mu.Lock()
+		delete(d.last, h.Addr)
+		d.mu.Unlock()
+		agent.VerifReport(plog)
+		d.mu.Lock()
+		got := d.last[h.Addr]
+		d.mu.Unlock()
+		if got == nil {
+			run.Count("c18:inconclusive_failover_round")
+			continue
+		}
+		run.Count("case:failover_report")
+		listed := false
+		for _, li := range got.PlogInfo {
+			listed = listed || (li.ShardId == sid && li.ReplicaId == 1)
+		}
+		op := J{"op": "report-cycle", "servers": "3 of 4 answer every call with an error, tried in random order", "announce_log_info": plog}
+		switch {
+		case got.PlogInfoIncluded != plog:
+			fail("loginfo_exact", "loginfo-flag-after-failover", fmt.Sprintf("the report cycle was asked to announce log information = %v, the report that arrived says %v", plog, got.PlogInfoIncluded), op)
+			return
+		case plog && !listed:
+			fail("loginfo_exact", "loginfo-missing-after-failover", fmt.Sprintf("the report announces persisted-log information but does not list replica 1 of shard %d, whose log is on disk (it lists %d records): Drummer reads this as a lost disk", sid, len(got.PlogInfo)), op)
+			return
+		case !plog && len(got.PlogInfo) != 0:
+			fail("loginfo_exact", "loginfo-unannounced-after-failover", "the report lists persisted logs without announcing them", op)
+			return
+		}
 	}
 }
